@@ -2,3 +2,4 @@ pub mod engine;
 pub mod ffi;
 pub mod gens;
 pub mod oracle;
+pub mod targets;
